@@ -24,12 +24,16 @@ DamageToks == {"(", ")", "[", "]", "{", "}", "DQ", "${", "%{", "~}", "<<EOT NL",
                "BADUTF", "NUL", "CR", "BACKTICK", "AMP", "BS", "NL", "#", "/*", "1e", "0x1"}
 
 
+\* text inserted INSIDE the first quoted string literal of the input (kind "instr")
+InStringToks == {"\\ud800", "\\udfff", "\\U0000d800", "\\U00110000", "\\u12", "\\x41", "\\", "${", "%{", "$${", "~}", "NL", "DQ", "BADUTF", "NUL", "\\U0001F600"}
+
 Dmg(k, p, t) == [k |-> k, p |-> p, t |-> t]
 Damages ==
     {Dmg("ins", p, t) : p \in 0..MaxPos, t \in DamageToks}
     \cup {Dmg("rep", p, t) : p \in 0..MaxPos, t \in DamageToks}
     \cup {Dmg("del", p, "") : p \in 0..MaxPos}
     \cup {Dmg("trunc", p, "") : p \in 0..MaxPos}
+    \cup {Dmg("instr", p, t) : p \in 0..2, t \in InStringToks}
 
 AllWraps(x) == WUn(x) \cup WArith(x) \cup WCmp(x) \cup WEq(x) \cup WLogic(x) \cup WCond(x) \cup WParen(x) \cup WTuple(x)
                \cup WObject(x) \cup WIndex(x) \cup WAttr(x) \cup WLegacy(x) \cup WSplat(x) \cup WFor(x) \cup WCall(x) \cup WTpl(x)
